@@ -14,8 +14,10 @@ Definition eqb_bentry (a b : bentry) : bool :=
 Definition srv_of (sf : lfeat) : eaddr * N := (lf_ent sf, lf_id sf).
 Definition on_srv (k : eaddr * N) (x : bentry) : bool := eqb_srv (b_srv x) k.
 
-(* the addressed binding of a delete call: client address [ca] on server feature [k] *)
-Definition hit (ca : faddr) (k : eaddr * N) (x : bentry) : bool := eqb_faddr (b_cli x) ca && on_srv k x.
+(* the addressed binding of a delete call of connection [p]: ITS entry with client address [ca] on
+   server feature [k]; entries of other connections are never addressed, whatever their address *)
+Definition hit (p : N) (ca : faddr) (k : eaddr * N) (x : bentry) : bool :=
+  N.eqb (b_ski x) p && eqb_faddr (b_cli x) ca && on_srv k x.
 
 (* is the sender's node-management feature announced? (otherwise the datagram is dropped) *)
 Definition sender_known (wd : st) (p : N) : option peer :=
